@@ -58,6 +58,11 @@ SliceFails(ev) ==
           { c \in Both(ev, Chk) : SubSeq(c, 1, 4) # "str_" })
     \cup (IF ev.i < ev.j /\ ~ev.reparseEq THEN {"slice_text_does_not_reparse_to_slice"} ELSE {})
 
+(* a slice of the reversed peptide *)
+RevSliceFails(ev) ==
+    LET want == Slice(ReverseAnn(ev.A, FALSE), ev.i, ev.j) IN
+    Pre("slice_of_reversed_", DiffOn(ev.res, want, ResidueFields \cup TermFields \cup {"intervals"} \cup {"static", "isotope"}))
+
 SliceComposeFails(ev) ==
     LET want == Slice(ev.A, ev.i + ev.a, ev.i + ev.b) IN
     Pre("slice_of_slice_", DiffOn(ev.res, want, ResidueFields \cup TermFields \cup {"intervals"}))
@@ -129,6 +134,7 @@ Fails(ev) == IF ev.out # "ret" THEN {"raised_" \o ev.out}
                     [] ev.op \in {"reverse2", "shift_back", "shift_len"} -> IdentityFails(ev)
                     [] ev.op = "slice" -> SliceFails(ev)
                     [] ev.op = "slice2" -> SliceComposeFails(ev)
+                    [] ev.op = "revslice" -> RevSliceFails(ev)
                     [] ev.op = "split" -> SplitFails(ev)
                     [] OTHER -> {"unknown_op"}
 
